@@ -199,25 +199,30 @@ def coq_cases(ctx, case, out):
             # cannot attribute the IndexError to one block when there are several: only single-block cubes
             if len(list(itertools.product(*his))) > 1:
                 return []
-            return ["(%s, %s, %s, %s, %s, [], true)" % (core.zlit(N), cubelib.dims_lit(sliced), core.zlist(out["shape"]), inferred, fmtlit)]
+            return ["(%s, %s, %s, %s, %s, [], [], true)" % (core.zlit(N), cubelib.dims_lit(sliced), core.zlist(out["shape"]), inferred, fmtlit)]
         shape = out["shape"]
         vals, valid, missing = (out["vals"][flat], out["valid"][flat], out["missing"][flat]) if flat else (out["vals"], out["valid"], out["missing"])
         ncell = int(numpy.prod(shape)) if shape else 1
+        def val(c):
+            v = cell_value(vals[c])
+            return 10 ** 9 + 7 if isinstance(v, float) else v          # a non-integer count: never equal to the model
         if ncell <= DENSE_LIMIT:
-            cells = list(itertools.product(*[range(e) for e in shape]))
+            # every cell, compactly: row-major codes 4 * value + (0 valid value | 1 valid NaN | 2 invalid value | 3 invalid NaN)
+            codes = []
+            for c in itertools.product(*[range(e) for e in shape]):
+                v = val(c)
+                codes.append(4 * (v or 0) + (0 if bool(valid[c]) else 2) + (1 if v is None else 0))
+            cl, codelit = [], core.zlist(codes)
         else:
             cells = set(tuple(int(x) for x in c) for c in numpy.argwhere(~missing))
             cells.add(tuple(int(d.common) for d in sliced))
             for _ in range(3):
                 cells.add(tuple(ctx.rng.choice([0, e - 1, ctx.rng.randrange(e), int(d.common)]) for e, d in zip(shape, sliced)))
             cells = sorted(c for c in cells if all(0 <= x < e for x, e in zip(c, shape)))
-        cl = []
-        for c in cells:
-            v = cell_value(vals[c])
-            if isinstance(v, float):
-                v = 10 ** 9 + 7          # a non-integer count: never equal to the model
-            cl.append("(%s, %s, %s)" % (core.zlist(c), core.optlit(v, core.zlit), core.boollit(bool(valid[c]))))
-        lits.append("(%s, %s, %s, %s, %s, [%s], false)" % (core.zlit(N), cubelib.dims_lit(sliced), core.zlist(shape), inferred, fmtlit, "; ".join(cl)))
+            cl = ["(%s, %s, %s)" % (core.zlist(c), core.optlit(val(c), core.zlit), core.boollit(bool(valid[c]))) for c in cells]
+            codelit = "[]"
+        lits.append("(%s, %s, %s, %s, %s, [%s], %s, false)" % (core.zlit(N), cubelib.dims_lit(sliced), core.zlist(shape), inferred, fmtlit,
+                                                                "; ".join(cl), codelit))
     return lits
 
 
